@@ -609,7 +609,9 @@ func (p *Program) expandAssigns(u *Universe, classes []string) (vars []string, a
 		case strings.HasPrefix(c, "elems(") && strings.HasSuffix(c, ")"):
 			so := strings.TrimSuffix(strings.TrimPrefix(c, "elems("), ")")
 			switch so {
-			case "ref", "int", "Int":
+			case "ref", "Ref":
+				add(u.elemVar(SRef))
+			case "int", "Int":
 				add(u.elemVar(SInt))
 			case "string", "String":
 				add(u.elemVar(SString))
